@@ -164,7 +164,14 @@ func c06Matrix() []c06Case {
 		both := decoy.Clone()
 		both[hn] = val.Str("b")
 		both["m"] = val.Map(map[string]val.V{hn: val.Str("b"), "app": val.Map(map[string]val.V{"version": val.Str("a")}), "a": val.Map(map[string]val.V{"b": val.Str("a")})})
-		items = append(items, decoy, both)
+		half := val.Item{"z": val.Str("bystander"), "m": val.Map(map[string]val.V{"zz": val.Str("a")})}
+		for k, v := range c06HalfDecoy(hn, val.Str("a")) {
+			half[k] = v
+		}
+		if mh, ok := c06HalfDecoy(hn, val.Str("a"))[strings.Split(hn, ".")[0]]; ok && strings.Contains(hn, ".") {
+			half["m"] = val.Map(map[string]val.V{"zz": val.Str("a"), strings.Split(hn, ".")[0]: mh})
+		}
+		items = append(items, decoy, both, half)
 		for _, it := range items {
 			for _, pth := range []refmodel.Path{top, nested} {
 				po := refmodel.Operand{Kind: "path", Path: pth}
@@ -197,6 +204,27 @@ func c06Decoy(name string, v val.V) val.Item {
 	cur := v
 	for i := len(parts) - 1; i >= 1; i-- {
 		cur = val.Map(map[string]val.V{parts[i]: cur})
+	}
+	out[parts[0]] = cur
+	return out
+}
+
+// c06HalfDecoy builds the containers a path reading of a hostile name would walk through, WITHOUT the last
+// member ("a.b" -> a:{zz:v}, "a.b.c" -> a:{b:{zz:v}}, "l[0]" -> l:[]): neither the literal attribute nor the
+// path reading exists, but a parent the path reading could write into or delete from does.
+func c06HalfDecoy(name string, v val.V) val.Item {
+	out := val.Item{}
+	if i := strings.Index(name, "["); i > 0 {
+		out[name[:i]] = val.List()
+		return out
+	}
+	parts := strings.Split(name, ".")
+	if len(parts) < 2 || parts[0] == "" {
+		return out
+	}
+	cur := val.Map(map[string]val.V{"zz": v})
+	for i := len(parts) - 2; i >= 1; i-- {
+		cur = val.Map(map[string]val.V{parts[i]: cur, "yy": v})
 	}
 	out[parts[0]] = cur
 	return out
